@@ -362,6 +362,7 @@ func runC13(c *Ctx) {
 	checkTypeSwitchArmsAssignSameVar(c, "C13-R2", []*ssa.Function{c.P.Func("wallet", "Wallet", "GetTransactions")})
 
 	runFlagTyping(c, "C13-R4")
+	checkFlagBytesReadThroughMasks(c, "C13-R4")
 	checkCreditRewriteFlags(c, "C13-R4")
 	checkExistsThenPut(c, "C13-R4")
 	checkConflictRemoval(c, "C13-R5")
@@ -863,4 +864,79 @@ func checkDebitIndexIsInputPosition(c *Ctx, rule string) {
 		}
 	}
 	c.Floor(rule, "debit records built while ranging over the inputs", n, 2)
+}
+
+// checkFlagBytesReadThroughMasks: a record's flags byte carries several independent bits (spent, change). It is read
+// through single-bit mask tests; a whole-byte comparison (`v[8] == 1<<0`) answers false as soon as another bit is set as
+// well — a spent change credit then reads as unspent. The flag bytes are found by role: the constant positions of byte
+// slices at which some function of the package tests or sets a single bit. Rule: no load from such a position is compared
+// for (in)equality with a non-zero constant.
+func checkFlagBytesReadThroughMasks(c *Ctx, rule string) {
+	p := c.P
+	constIdxLoad := func(v ssa.Value) (int64, bool) {
+		u, ok := stripConv(v).(*ssa.UnOp)
+		if !ok || u.Op != token.MUL {
+			return 0, false
+		}
+		ia, ok := u.X.(*ssa.IndexAddr)
+		if !ok {
+			return 0, false
+		}
+		if sl, ok := ia.X.Type().Underlying().(*types.Slice); !ok || !isByteType(sl.Elem()) {
+			return 0, false
+		}
+		return constInt(ia.Index)
+	}
+	singleBit := func(m int64) bool { return m > 0 && m&(m-1) == 0 }
+	flagIdx := map[int64]int{}
+	type cmp struct {
+		fn  *ssa.Function
+		bo  *ssa.BinOp
+		idx int64
+	}
+	var cmps []cmp
+	for _, fn := range p.FuncsIn("wtxmgr") {
+		for _, b := range fn.Blocks {
+			for _, ins := range b.Instrs {
+				bo, ok := ins.(*ssa.BinOp)
+				if !ok {
+					continue
+				}
+				for _, pair := range [][2]ssa.Value{{bo.X, bo.Y}, {bo.Y, bo.X}} {
+					idx, isLoad := constIdxLoad(pair[0])
+					k, isK := constInt(pair[1])
+					if !isLoad || !isK {
+						continue
+					}
+					switch bo.Op {
+					case token.AND, token.OR, token.AND_NOT:
+						if singleBit(k) || (bo.Op == token.AND && singleBit(^k&0xff)) {
+							flagIdx[idx]++
+						}
+					case token.EQL, token.NEQ:
+						if k != 0 {
+							cmps = append(cmps, cmp{fn, bo, idx})
+						}
+					}
+				}
+			}
+		}
+	}
+	n := 0
+	for _, k := range flagIdx {
+		n += k
+	}
+	for _, cm := range cmps {
+		if flagIdx[cm.idx] == 0 {
+			continue
+		}
+		c.Check(rule, "flag-byte-read-through-mask:"+cm.fn.Name(), cm.bo.Pos(), false,
+			cm.fn.Name()+" compares a whole flags byte with a constant: the answer is wrong as soon as another flag of the same byte is set (a spent CHANGE credit reads as unspent, and the balance passes subtract it a second time)")
+	}
+	c.Floor(rule, "single-bit tests and updates of record flag bytes", n, 6)
+}
+
+func isByteType(t types.Type) bool {
+	b, ok := t.Underlying().(*types.Basic)
+	return ok && (b.Kind() == types.Uint8 || b.Kind() == types.Byte)
 }
